@@ -52,7 +52,7 @@ func genC09(r *vh.Rand) c09Spec {
 		s.FirstCut.At = -1
 	}
 	for i, n := 0, r.Range(1, 8); i < n; i++ {
-		s.Reconnects = append(s.Reconnects, []string{"ok", "ok", "ok", "ok", "ok", "neterr", "timeout", "503", "500", "502", "404", "400"}[r.Intn(12)])
+		s.Reconnects = append(s.Reconnects, []string{"ok", "ok", "ok", "ok", "ok", "neterr", "timeout", "503", "500", "502", "404", "400", "404-json", "404-json-null", "400-json"}[r.Intn(15)])
 	}
 	for range s.Reconnects {
 		c := c09Cut{At: -1}
@@ -60,6 +60,23 @@ func genC09(r *vh.Rand) c09Spec {
 			c = c09Cut{At: r.Intn(500), Kind: r.Choose("error", "eof")}
 		}
 		s.Cuts = append(s.Cuts, c)
+	}
+	if r.Chance(1, 8) {
+		// Directed shape: resumed bodies that end before their first event alternate with bodies that
+		// deliver one more event. No run of fruitless attempts reaches the budget, their total exceeds it.
+		s.K, s.Prime, s.IDs, s.MaxRetries = 4, true, true, r.Range(2, 3)
+		s.FirstCut = c09Cut{At: r.Range(36, 60), Kind: r.Choose("error", "eof")}
+		s.Reconnects, s.Cuts = nil, nil
+		for i := 0; i < 4; i++ {
+			for j := 0; j < s.MaxRetries-1; j++ { // the longest fruitless run the budget tolerates
+				s.Reconnects = append(s.Reconnects, "ok")
+				s.Cuts = append(s.Cuts, c09Cut{At: r.Intn(8), Kind: r.Choose("error", "eof")})
+			}
+			s.Reconnects = append(s.Reconnects, "ok")
+			s.Cuts = append(s.Cuts, c09Cut{At: r.Range(190, 250), Kind: r.Choose("error", "eof")})
+		}
+		s.Reconnects = append(s.Reconnects, "ok")
+		s.Cuts = append(s.Cuts, c09Cut{At: -1})
 	}
 	return s
 }
@@ -218,6 +235,17 @@ func (s *c09Server) RoundTrip(req *http.Request) (*http.Response, error) {
 			// the script is exhausted: the server keeps answering 200 with an empty stream (no progress, for ever)
 			s.served = append(s.served, nil)
 			return s.resp(req, 200, "text/event-stream", &c09Body{r: bytes.NewReader(nil), kind: "eof"}, nil), nil
+		case "404-json", "404-json-null", "400-json":
+			// the status with a JSON-RPC error as its body, as MCP servers answer an unknown session
+			s.fatal = true
+			st, id := 404, s.callID
+			if outcome == "400-json" {
+				st = 400
+			}
+			if outcome == "404-json-null" {
+				id = "null"
+			}
+			return s.resp(req, st, "application/json", io.NopCloser(strings.NewReader(fmt.Sprintf(`{"jsonrpc":"2.0","id":%s,"error":{"code":-32001,"message":"session not found"}}`, id))), nil), nil
 		case "500", "502", "503", "404", "400", "405":
 			var st int
 			fmt.Sscan(outcome, &st)
